@@ -68,20 +68,40 @@ package logql
 //@   modifies nothing
 //@   ensures[table] ret1 == (tokOp(peekTok(p)) != 0) && ret0 == tokOp(peekTok(p))
 
+// bool? ((on|ignoring) (labels) ((group_left|group_right) (labels)?)?)?
 //@ func (*parser).parseBinOpModifier
-//@   trusted
 //@   requires p.pos >= 0
+//@   capture pk0 = call(p.peek, 0)
+//@   capture pk1 = call(p.peek, 1)
+//@   capture lbl = call(p.parseLabels, 0)
+//@   capture pk2 = call(p.peek, 2)
+//@   capture inc = call(p.parseLabels, 1)
 //@   modifies p.pos
 //@   ensures p.pos >= old(p.pos)
+//@   ensures[bool-flag] ret1 == nil ==> ret0.ReturnBool == (pk0_r0.Type == lexer.Bool)
+//@   ensures[vector-matching] ret1 == nil ==> ret0.Op == ite(pk1_r0.Type == lexer.On, "on", ite(pk1_r0.Type == lexer.Ignoring, "ignoring", "")) &&
+//@       (ret0.Op != "" ==> lbl_called && same(ret0.OpLabels, lbl_r0)) && (ret0.Op == "" ==> !lbl_called && ret0.Group == "" && len(ret0.OpLabels) == 0)
+//@   ensures[group-side] ret1 == nil && lbl_called ==> ret0.Group == ite(pk2_r0.Type == lexer.GroupLeft, "left", ite(pk2_r0.Type == lexer.GroupRight, "right", ""))
+//@   ensures[include-list] ret1 == nil && inc_called ==> same(ret0.Include, inc_r0) && ret0.Group != ""
 
 //@ func (*parser).parseMetricExpr1
 //@   requires p.pos >= 0
 //@   modifies p.pos
 //@   ensures p.pos >= old(p.pos)
+//@   ensures[operand-kind-of-first-token] ret1 == nil ==>
+//@       (old(peekTok(p)) == lexer.OpenParen ==> typeis[*ParenExpr](ret0)) &&
+//@       (rangeOpOf(old(peekTok(p))) != 0 ==> typeis[*RangeAggregationExpr](ret0) && as[*RangeAggregationExpr](ret0).Op == rangeOpOf(old(peekTok(p)))) &&
+//@       (vectorOpOf(old(peekTok(p))) != 0 ==> typeis[*VectorAggregationExpr](ret0) && as[*VectorAggregationExpr](ret0).Op == vectorOpOf(old(peekTok(p)))) &&
+//@       (old(peekTok(p)) == lexer.Number || old(peekTok(p)) == lexer.Add || old(peekTok(p)) == lexer.Sub ==> typeis[*LiteralExpr](ret0)) &&
+//@       (old(peekTok(p)) == lexer.LabelReplace ==> typeis[*LabelReplaceExpr](ret0)) &&
+//@       (old(peekTok(p)) == lexer.Vector ==> typeis[*VectorExpr](ret0))
+//@   ensures[other-tokens-rejected] ret1 == nil ==> old(peekTok(p)) == lexer.OpenParen || rangeOpOf(old(peekTok(p))) != 0 || vectorOpOf(old(peekTok(p))) != 0 ||
+//@       old(peekTok(p)) == lexer.Number || old(peekTok(p)) == lexer.Add || old(peekTok(p)) == lexer.Sub || old(peekTok(p)) == lexer.LabelReplace || old(peekTok(p)) == lexer.Vector
 //@   ensures[no-bare-binop] ret1 == nil ==> topPrec(ret0) == 100
 
 //@ func (*parser).parseBinOp
 //@   requires p.pos >= 0 && minPrecedence >= 0
+//@   ensures[cursor-never-moves-back] p.pos >= old(p.pos)
 //@   requires[L-first] nextPrec(p) < minPrecedence || nextPrec(p) < topPrec(left)
 //@   requires[min-le-left] minPrecedence <= topPrec(left)
 //@   modifies p.pos
@@ -91,11 +111,11 @@ package logql
 //@   ensures[next-lower] ret1 == nil ==> nextPrec(p) < topPrec(ret0)
 //@   loop 0 modifies p.pos
 //@   loop 1 modifies p.pos
-//@   loop 0 invariant p.pos >= 0
+//@   loop 0 invariant p.pos >= 0 && p.pos >= old(p.pos)
 //@   loop 0 invariant nextPrec(p) < minPrecedence || nextPrec(p) < topPrec(left)
 //@   loop 0 invariant minPrecedence <= topPrec(left)
 //@   loop 0 invariant left == old(left) || (topPrec(left) != 100 && topPrec(left) >= minPrecedence)
-//@   loop 1 invariant p.pos >= 0
+//@   loop 1 invariant p.pos >= 0 && p.pos >= old(p.pos)
 //@   loop 1 invariant topPrec(right) >= op.Precedence()
 //@   loop 1 invariant nextPrec(p) < topPrec(right)
 //@   loop 1 invariant op.IsLogic() ==> !typeis[*LiteralExpr](right)
@@ -110,11 +130,19 @@ package logql
 // Frames of the recursive-descent helpers called by parseMetricExpr1 (assumed, not verified:
 // the only parser state is the cursor p.pos; everything else they write is freshly allocated).
 
+//@ scope parser_expr.go
+
+// A query starting with `{` is a log query; anything else is a metric query.
 //@ func (*parser).parseExpr
-//@   trusted
 //@   requires p.pos >= 0
+//@   capture le = call(p.parseLogExpr, 0)
+//@   capture me = call(p.parseMetricExpr, 0)
 //@   modifies p.pos
 //@   ensures p.pos >= old(p.pos)
+//@   ensures[brace-starts-a-log-query] old(peekTok(p)) == lexer.OpenBrace ==> le_called && !me_called && same(ret1, le_r1) && typeis[*LogExpr](ret0) && as[*LogExpr](ret0) == le_r0
+//@   ensures[metric-query-otherwise] old(peekTok(p)) != lexer.OpenBrace ==> me_called && !le_called && same(ret1, me_r1) && same(ret0, Expr(me_r0))
+
+//@ scope parser_metric_expr.go
 
 //@ func (*parser).consume
 //@   requires p.pos >= 0
@@ -127,17 +155,29 @@ package logql
 //@   modifies nothing
 //@   ensures ret0 != nil
 
+// label_replace(expr, "dst", "replacement", "src", "regex"): the four strings in that order.
 //@ func (*parser).parseLabelReplace
-//@   trusted
 //@   requires p.pos >= 0
+//@   capture sub = call(p.parseMetricExpr, 0)
+//@   capture re = call(compileLabelRegex, 0)
 //@   modifies p.pos
 //@   ensures p.pos >= old(p.pos)
+//@   ensures[keyword-and-operand] ret1 == nil ==> ret0 != nil && old(peekTok(p)) == lexer.LabelReplace && tokType(p, old(p.pos)+1) == lexer.OpenParen && sub_called && same(ret0.Expr, sub_r0)
+//@   ensures[four-strings-in-order] ret1 == nil ==> p.pos >= 9 && tokType(p, p.pos-1) == lexer.CloseParen &&
+//@       tokType(p, p.pos-9) == lexer.Comma && tokType(p, p.pos-8) == lexer.String && ret0.DstLabel == tokText(p, p.pos-8) &&
+//@       tokType(p, p.pos-7) == lexer.Comma && tokType(p, p.pos-6) == lexer.String && ret0.Replacement == tokText(p, p.pos-6) &&
+//@       tokType(p, p.pos-5) == lexer.Comma && tokType(p, p.pos-4) == lexer.String && ret0.SrcLabel == tokText(p, p.pos-4) &&
+//@       tokType(p, p.pos-3) == lexer.Comma && tokType(p, p.pos-2) == lexer.String && ret0.Regex == tokText(p, p.pos-2)
+//@   ensures[regex-compiled] ret1 == nil ==> re_called && re_a0 == ret0.Regex && re_r1 == nil && ret0.Re == re_r0 && ret0.Re != nil
 
+// vector(number)
 //@ func (*parser).parseVectorExpr
-//@   trusted
 //@   requires p.pos >= 0
+//@   capture num = call(p.parseNumber, 0)
 //@   modifies p.pos
 //@   ensures p.pos >= old(p.pos)
+//@   ensures[four-tokens] ret1 == nil ==> ret0 != nil && p.pos == old(p.pos)+4 && old(peekTok(p)) == lexer.Vector && tokType(p, old(p.pos)+1) == lexer.OpenParen &&
+//@       tokType(p, old(p.pos)+2) == lexer.Number && tokType(p, old(p.pos)+3) == lexer.CloseParen && num_called && same(ret0.Value, num_r0)
 
 // ---- helpers used by the metric engine
 
@@ -311,11 +351,37 @@ package logql
 //@   return 0
 //@ }
 
+//@ scope parser_range_expr.go
+
+// selector, then [range] (offset d)? and the pipeline in either order, then an optional unwrap.
 //@ func (*parser).parseRangeExpr
-//@   trusted
+//@   requires p.pos >= 0
+//@   capture sel = call(p.parseSelector, 0)
+//@   capture rng = call(p.parseDuration, 0)
+//@   capture off = call(p.parseDuration, 1)
+//@   capture pl = call(p.parsePipeline, 0)
+//@   capture uw = call(p.parseUnwrapExpr, 0)
+//@   modifies p.pos
+//@   ensures p.pos >= old(p.pos)
+//@   ensures[selector] ret1 == nil ==> sel_called && same(ret0.Sel, sel_r0)
+//@   ensures[range-is-the-bracketed-duration] ret1 == nil ==> rng_called && ret0.Range == rng_r0 && before(rng_called, p.pos >= 1 && tokType(p, p.pos-1) == lexer.OpenBracket)
+//@   ensures[offset-follows-the-keyword] ret1 == nil ==> (ret0.Offset != nil) == off_called && (off_called ==> ret0.Offset.Duration == off_r0 && before(off_called, p.pos >= 1 && tokType(p, p.pos-1) == lexer.Offset))
+//@   ensures[pipeline-may-end-in-unwrap] ret1 == nil ==> pl_called && pl_a0 && same(ret0.Pipeline, pl_r0)
+//@   ensures[unwrap] ret1 == nil ==> (ret0.Unwrap != nil ==> uw_called && ret0.Unwrap == uw_r0) && (!uw_called ==> ret0.Unwrap == nil)
+
+// unwrap label | unwrap conv(label), followed by `| matcher` post-filters.
+//@ func (*parser).parseUnwrapExpr
 //@   requires p.pos >= 0
 //@   modifies p.pos
 //@   ensures p.pos >= old(p.pos)
+//@   ensures[unwrap-keyword] ret1 == nil ==> old(peekTok(p)) == lexer.Unwrap && ret0 != nil
+//@   ensures[plain-label] ret1 == nil && tokType(p, old(p.pos)+1) == lexer.Ident ==> ret0.Op == "" && ret0.Label == Label(tokText(p, old(p.pos)+1))
+//@   ensures[conversion] ret1 == nil && tokType(p, old(p.pos)+1) != lexer.Ident ==>
+//@       (tokType(p, old(p.pos)+1) == lexer.BytesConv || tokType(p, old(p.pos)+1) == lexer.DurationConv || tokType(p, old(p.pos)+1) == lexer.DurationSecondsConv) &&
+//@       ret0.Op == tokText(p, old(p.pos)+1) && tokType(p, old(p.pos)+2) == lexer.OpenParen && tokType(p, old(p.pos)+3) == lexer.Ident &&
+//@       ret0.Label == Label(tokText(p, old(p.pos)+3)) && tokType(p, old(p.pos)+4) == lexer.CloseParen
+//@   loop 0 modifies p.pos, ue.Filters, ue.Filters[*]
+//@   loop 0 invariant p.pos >= 0 && p.pos >= old(p.pos) && ue != nil && fresh(ue) && fresh(ue.Filters)
 
 // A parenthesised, comma-separated, possibly empty list of labels: every label in order, nothing else.
 //@ func (*parser).parseLabels
@@ -332,11 +398,16 @@ package logql
 //@   loop 0 invariant forall(0, len(labels), func(k int) bool { return tokType(p, old(p.pos)+1+2*k) == lexer.Ident && labels[k] == Label(tokText(p, old(p.pos)+1+2*k)) })
 //@   loop 0 invariant forall(0, len(labels), func(k int) bool { return tokType(p, old(p.pos)+2+2*k) == lexer.Comma })
 
+// operand (operator operand)*: the first operand is handed to the precedence climber with the
+// lowest minimum precedence.
 //@ func (*parser).parseMetricExpr
-//@   trusted
 //@   requires p.pos >= 0
+//@   capture first = call(p.parseMetricExpr1, 0)
+//@   capture bin = call(p.parseBinOp, 0)
 //@   modifies p.pos
 //@   ensures p.pos >= old(p.pos)
+//@   ensures[operand-then-operators] ret1 == nil ==> first_called && first_r1 == nil && bin_called && same(bin_a0, first_r0) && bin_a1 == 0 && same(ret0, bin_r0)
+//@   ensures[errors-surface] (first_called && first_r1 != nil) || (bin_called && bin_r1 != nil) ==> ret1 != nil
 
 //@ func (*parser).parseGrouping
 //@   requires p.pos >= 0
@@ -536,10 +607,10 @@ package logql
 //@   ensures[comma-separated] ret1 == nil && old(peekTok(p)) == lexer.OpenBrace ==> forall(0, len(ret0.Matchers)-1, func(k int) bool { return tokType(p, old(p.pos)+4+4*k) == lexer.Comma })
 //@   loop 0 modifies p.pos, s.Matchers[*]
 //@   loop 0 invariant p.pos >= 0 && p.pos == old(p.pos) + 1 + 4*len(s.Matchers) && old(peekTok(p)) == lexer.OpenBrace && tokType(p, old(p.pos)+1) != lexer.CloseBrace && fresh(s.Matchers)
-//@   loop 0 invariant forall(0, len(s.Matchers), func(k int) bool {
-//@       return s.Matchers[k].Label == Label(tokText(p, old(p.pos)+1+4*k)) && s.Matchers[k].Op == matchOp(tokType(p, old(p.pos)+2+4*k)) && s.Matchers[k].Value == tokText(p, old(p.pos)+3+4*k) &&
-//@              tokType(p, old(p.pos)+1+4*k) == lexer.Ident && matchOp(tokType(p, old(p.pos)+2+4*k)) != 0 && tokType(p, old(p.pos)+3+4*k) == lexer.String &&
-//@              ((s.Matchers[k].Op == OpRe || s.Matchers[k].Op == OpNotRe) == (s.Matchers[k].Re != nil)) })
+//@   loop 0 invariant forall(0, len(s.Matchers), func(k int) bool { return s.Matchers[k].Label == Label(tokText(p, old(p.pos)+1+4*k)) && tokType(p, old(p.pos)+1+4*k) == lexer.Ident })
+//@   loop 0 invariant forall(0, len(s.Matchers), func(k int) bool { return s.Matchers[k].Op == matchOp(tokType(p, old(p.pos)+2+4*k)) && matchOp(tokType(p, old(p.pos)+2+4*k)) != 0 })
+//@   loop 0 invariant forall(0, len(s.Matchers), func(k int) bool { return s.Matchers[k].Value == tokText(p, old(p.pos)+3+4*k) && tokType(p, old(p.pos)+3+4*k) == lexer.String })
+//@   loop 0 invariant forall(0, len(s.Matchers), func(k int) bool { return (s.Matchers[k].Op == OpRe || s.Matchers[k].Op == OpNotRe) == (s.Matchers[k].Re != nil) })
 //@   loop 0 invariant forall(0, len(s.Matchers), func(k int) bool { return tokType(p, old(p.pos)+4+4*k) == lexer.Comma })
 
 //@ func (*parser).parseLogExpr
@@ -607,23 +678,32 @@ package logql
 //@       head(tokType(p, p.pos+1)) == lexer.Keep || head(tokType(p, p.pos+1)) == lexer.Drop || head(tokType(p, p.pos+1)) == lexer.Distinct
 
 //@ func (*parser).parseLabelExtraction
-//@   trusted
 //@   requires p.pos >= 0
 //@   modifies p.pos
 //@   ensures p.pos >= old(p.pos)
+//@   loop 0 modifies p.pos, labels[*], exprs[*]
+//@   loop 0 invariant p.pos >= 0 && p.pos >= old(p.pos) && fresh(labels) && fresh(exprs)
 
 //@ func (*parser).parseRegexpLabelParser
-//@   trusted
 //@   requires p.pos >= 0
+//@   capture ps = call(p.parseString, 0)
+//@   capture rc = call(regexp.Compile, 0)
 //@   modifies p.pos
 //@   ensures p.pos >= old(p.pos)
-//@   ensures ret1 == nil ==> ret0 != nil
+//@   ensures[pattern-compiled] ret1 == nil ==> ret0 != nil && ps_called && rc_called && rc_a0 == ps_r0 && rc_r1 == nil && ret0.Regexp == rc_r0 && ret0.Mapping != nil
+//@   loop 0 modifies mapping[*], unique[*]
+//@   loop 0 invariant mapping != nil && unique != nil && fresh(mapping) && fresh(unique)
 
 //@ func (*parser).parseLabelsAndMatchers
-//@   trusted
 //@   requires p.pos >= 0
+//@   capture m = call(p.parseLabelMatcher, 0)
+//@   capture l = call(p.parseIdent, 0)
 //@   modifies p.pos
 //@   ensures p.pos >= old(p.pos)
+//@   loop 0 modifies p.pos, labels[*], matchers[*]
+//@   loop 0 invariant p.pos >= 0 && p.pos >= old(p.pos) && fresh(labels) && fresh(matchers)
+//@   loop 0 body_ensures[label-or-matcher-appended-in-order] (m_called ==> len(matchers) == head(len(matchers)) + 1 && len(labels) == head(len(labels)) && same(matchers[len(matchers)-1], m_r0)) &&
+//@       (!m_called ==> l_called && len(labels) == head(len(labels)) + 1 && len(matchers) == head(len(matchers)) && labels[len(labels)-1] == l_r0)
 
 //@ func (*parser).parseKeepLabelsExpr
 //@   requires p.pos >= 0
